@@ -50,6 +50,46 @@ fn process_leave_request(leave_message: &String, dbs: &Arc<Databases>) {
     }
 }
 
+/// What the end of a client connection does (end-of-file on the socket)
+fn connection_closed(client: &mut Client, dbs: &Arc<Databases>) {
+    log::debug!("killing socket client, because of disconnected!!");
+    process_request("unwatch-all", dbs, client);
+    let member = &*client.cluster_member.lock().unwrap();
+    if let Some(m) = member {
+        match m.role {
+            ClusterRole::Primary => {
+                log::debug!("Primary Cluster member disconnected: {}", m.name);
+                process_leave_request(&format!("leave {}", m.name), dbs);
+            }
+            ClusterRole::Secoundary => {
+                log::debug!(
+                    "Secoundary Cluster member disconnected: {}",
+                    m.name
+                );
+                process_leave_request(
+                    &format!("replicate-leave {}", m.name),
+                    dbs,
+                ); // replicate-leave does not efornce election
+            }
+            ClusterRole::StartingUp => {
+                log::debug!(
+                    "ClusterMember {} died while still in StartingUp mode",
+                    m.name
+                );
+                process_leave_request(
+                    &format!("replicate-leave {}", m.name),
+                    dbs,
+                ); // replicate-leave does not efornce election
+            }
+        }
+    }
+    client.left(dbs);
+}
+#[cfg(nundb_verif)]
+pub fn verif_connection_closed(client: &mut Client, dbs: &Arc<Databases>) {
+    connection_closed(client, dbs)
+}
+
 fn handle_client(stream: TcpStream, dbs: Arc<Databases>) {
     let mut reader = BufReader::new(&stream);
     let writer = &mut BufWriter::new(&stream);
@@ -75,38 +115,7 @@ fn handle_client(stream: TcpStream, dbs: Arc<Databases>) {
                 log::debug!("Command print: {}", clean_string_to_log(&buf, &dbs));
                 match buf.as_ref() {
                     "" => {
-                        log::debug!("killing socket client, because of disconnected!!");
-                        process_request("unwatch-all", &dbs, &mut client);
-                        let member = &*client.cluster_member.lock().unwrap();
-                        if let Some(m) = member {
-                            match m.role {
-                                ClusterRole::Primary => {
-                                    log::debug!("Primary Cluster member disconnected: {}", m.name);
-                                    process_leave_request(&format!("leave {}", m.name), &dbs);
-                                }
-                                ClusterRole::Secoundary => {
-                                    log::debug!(
-                                        "Secoundary Cluster member disconnected: {}",
-                                        m.name
-                                    );
-                                    process_leave_request(
-                                        &format!("replicate-leave {}", m.name),
-                                        &dbs,
-                                    ); // replicate-leave does not efornce election
-                                }
-                                ClusterRole::StartingUp => {
-                                    log::debug!(
-                                        "ClusterMember {} died while still in StartingUp mode",
-                                        m.name
-                                    );
-                                    process_leave_request(
-                                        &format!("replicate-leave {}", m.name),
-                                        &dbs,
-                                    ); // replicate-leave does not efornce election
-                                }
-                            }
-                        }
-                        client.left(&dbs);
+                        connection_closed(&mut client, &dbs);
                         break;
                     }
                     _ => match process_request(&buf, &dbs, &mut client) {
